@@ -175,9 +175,9 @@ func StateAt(base map[backend.Handle][]byte, ops []Op, seq int) map[backend.Hand
 			}
 		}
 		switch op.Kind {
-		case "Save":
+		case "Save", "EnvPut":
 			res[normHandle(op.H)] = op.Data
-		case "Remove":
+		case "Remove", "EnvRemove":
 			delete(res, normHandle(op.H))
 		}
 	}
@@ -200,6 +200,27 @@ func (s *Store) Put(h backend.Handle, data []byte) {
 // Del removes a file directly (unlogged).
 func (s *Store) Del(h backend.Handle) {
 	_ = s.inner.Remove(context.Background(), h)
+}
+
+// EnvRemove removes a file on behalf of the environment (harness-made damage); it is logged as an
+// "EnvRemove" operation which the projector turns into a Drop* event (exempt from ordering rules).
+func (s *Store) EnvRemove(h backend.Handle) {
+	s.mu.Lock()
+	defer s.mu.Unlock()
+	_ = s.inner.Remove(context.Background(), h)
+	s.ops = append(s.ops, Op{Seq: len(s.ops) + 1, Proc: "env", Kind: "EnvRemove", H: h, OK: true})
+}
+
+// EnvPut stores (replaces) a file on behalf of the environment; logged as "EnvPut" (Damage*/Init* event).
+func (s *Store) EnvPut(h backend.Handle, data []byte) {
+	s.mu.Lock()
+	defer s.mu.Unlock()
+	ctx := context.Background()
+	_ = s.inner.Remove(ctx, h)
+	if err := s.inner.Save(ctx, h, backend.NewByteReader(data, s.inner.Hasher())); err != nil {
+		panic(err)
+	}
+	s.ops = append(s.ops, Op{Seq: len(s.ops) + 1, Proc: "env", Kind: "EnvPut", H: h, OK: true, Data: data})
 }
 
 // Get reads a file directly (unlogged).
